@@ -18,7 +18,9 @@
 // context.DeadlineExceeded — all of them failures of the *source*: nobody has cancelled the consumer's
 // or Batch's own context) | next live | next dead |
 // cancel (the pending Next's context) | sleep <ms> | fullret (one gated full() call may return) |
-// fullopen (full() is no longer gated) | close.
+// fullopen (full() is no longer gated) | close | srcclosed (scenarios with a `slowclose` line: the
+// source's Close takes time — the call returns only when the script says so; what the stream does in
+// the meantime, in particular whether its own Close returns, is judged).
 package c11
 
 import (
@@ -96,7 +98,9 @@ type Scn struct {
 	Size     int    `json:"size"`               // batch mode
 	Gated    bool   `json:"gated,omitempty"`    // func mode: full() waits for a token
 	CtxFirst bool   `json:"ctxfirst,omitempty"` // the source checks its context before its queue
-	Script   []Act  `json:"script"`
+	// the source's Close does not return before the script's `srcclosed` (or the end of the scenario)
+	SlowClose bool  `json:"slowclose,omitempty"`
+	Script    []Act `json:"script"`
 }
 
 func (s Scn) cfgLine() string {
@@ -110,10 +114,22 @@ func (s Scn) cfgLine() string {
 	return fmt.Sprintf("cfg func %d %d", s.MaxWait, g)
 }
 
+// modelCfgLine: the configuration as the Lean engine is told (it has to know who releases the
+// source's Close).
+func (s Scn) modelCfgLine() string {
+	if s.SlowClose {
+		return s.cfgLine() + " slow"
+	}
+	return s.cfgLine()
+}
+
 func (s Scn) Lines() []string {
 	out := []string{s.cfgLine()}
 	if s.CtxFirst {
 		out = append(out, "ctxfirst")
+	}
+	if s.SlowClose {
+		out = append(out, "slowclose")
 	}
 	for _, a := range s.Script {
 		out = append(out, a.String())
@@ -149,6 +165,8 @@ func parseScn(lines []string) (Scn, error) {
 			}
 		case "ctxfirst":
 			s.CtxFirst = true
+		case "slowclose":
+			s.SlowClose = true
 		case "rel", "sleep":
 			s.Script = append(s.Script, Act{Op: f[0], V: num(1)})
 		case "next":
@@ -165,7 +183,7 @@ func parseScn(lines []string) (Scn, error) {
 				}
 			}
 			s.Script = append(s.Script, Act{Op: "err", V: k})
-		case "eof", "cancel", "fullret", "fullopen", "close":
+		case "eof", "cancel", "fullret", "fullopen", "close", "srcclosed":
 			s.Script = append(s.Script, Act{Op: f[0]})
 		default:
 			return s, fmt.Errorf("bad line %q", l)
@@ -202,8 +220,10 @@ type source struct {
 	termKind   int    // its kind (index into errKinds)
 	termAt     int64
 	nextActive int
-	closeCalls int
+	closeCalls int // Close calls begun
+	closeRets  int // Close calls that have returned
 	inClose    int
+	closeGate  chan struct{} // nil: Close is instantaneous; else it returns once this is closed
 
 	nextAfterClose, nextDuringClose, closeDuringNext, nextOverlap bool
 }
@@ -267,8 +287,12 @@ func (s *source) Close() {
 	}
 	s.inClose++
 	s.mu.Unlock()
+	if s.closeGate != nil {
+		<-s.closeGate // a Close that takes time (flushes, gives a connection back)
+	}
 	s.mu.Lock()
 	s.inClose--
+	s.closeRets++
 	s.mu.Unlock()
 }
 
@@ -303,6 +327,7 @@ type Obs struct {
 	SClosed int    `json:"sclosed"`
 	CRet    bool   `json:"cret"`
 	FPend   bool   `json:"fpend"`
+	SInCl   bool   `json:"sinclose"`
 }
 
 func b01(b bool) string {
@@ -313,7 +338,7 @@ func b01(b bool) string {
 }
 
 func (o Obs) Line() string {
-	return fmt.Sprintf("step %s obs %s %d %s %d %s %d %s %s", o.Act, o.Cons, o.NRes, o.LastRes, o.Pulled, b01(o.SPend), o.SClosed, b01(o.CRet), b01(o.FPend))
+	return fmt.Sprintf("step %s obs %s %d %s %d %s %d %s %s %s", o.Act, o.Cons, o.NRes, o.LastRes, o.Pulled, b01(o.SPend), o.SClosed, b01(o.CRet), b01(o.FPend), b01(o.SInCl))
 }
 
 type callRes struct {
@@ -392,6 +417,15 @@ func runOnce(t *testing.T, scn Scn) (tr *Trace) {
 
 func bubble(scn Scn, tr *Trace) (closeReturned bool) {
 	src := &source{wake: make(chan struct{}, 1), t0: time.Now(), ctxFirst: scn.CtxFirst}
+	srcCloseReleased := false
+	if scn.SlowClose {
+		src.closeGate = make(chan struct{})
+		tr.Features["slow-source-close"] = true
+	}
+	// what the source's Close had done at the very instant the stream's Close returned (judged in the
+	// goroutine that called Close, before anything else runs)
+	type closeSnap struct{ begun, returned int }
+	var atCloseRet *closeSnap
 	var mu sync.Mutex
 	var fulls []*fullCall
 	gate := make(chan struct{}, 4096)
@@ -470,8 +504,9 @@ func bubble(scn Scn, tr *Trace) (closeReturned bool) {
 	}
 
 	script := append([]Act{}, scn.Script...)
-	// cleanup tail: every scenario ends with the pending call cancelled, full() ungated and Close
-	script = append(script, Act{Op: "cancel"}, Act{Op: "fullopen"}, Act{Op: "close"})
+	// cleanup tail: every scenario ends with the pending call cancelled, full() ungated, Close, and the
+	// source's Close allowed to return
+	script = append(script, Act{Op: "cancel"}, Act{Op: "fullopen"}, Act{Op: "close"}, Act{Op: "srcclosed"})
 
 	for _, a := range script {
 		switch a.Op {
@@ -527,9 +562,18 @@ func bubble(scn Scn, tr *Trace) (closeReturned bool) {
 					mu.Unlock()
 				}
 				mu.Lock()
+				src.mu.Lock()
+				atCloseRet = &closeSnap{src.closeCalls, src.closeRets}
+				src.mu.Unlock()
 				closeRet, closeRetAt = true, src.ms()
 				mu.Unlock()
 			}()
+		case "srcclosed":
+			if src.closeGate == nil || srcCloseReleased {
+				continue
+			}
+			srcCloseReleased = true
+			close(src.closeGate)
 		default:
 			continue
 		}
@@ -547,7 +591,7 @@ func bubble(scn Scn, tr *Trace) (closeReturned bool) {
 			pendCancel()
 		}
 		o := Obs{Act: a.String(), T: src.ms(), Cons: "idle", NRes: len(tr.Results), LastRes: "-",
-			Pulled: len(src.handed), SPend: src.nextActive > 0, SClosed: src.closeCalls, CRet: closeRet}
+			Pulled: len(src.handed), SPend: src.nextActive > 0, SClosed: src.closeRets, CRet: closeRet, SInCl: src.inClose > 0}
 		if pending {
 			o.Cons = "pend"
 		}
@@ -560,8 +604,20 @@ func bubble(scn Scn, tr *Trace) (closeReturned bool) {
 			}
 		}
 		tr.Steps = append(tr.Steps, o)
+		if atCloseRet != nil && (atCloseRet.begun != 1 || atCloseRet.returned != 1) {
+			how := fmt.Sprintf("the source had been closed %d times", atCloseRet.begun)
+			switch {
+			case atCloseRet.begun == 0:
+				how = "the source's Close had not been called"
+			case atCloseRet.begun == 1 && atCloseRet.returned == 0:
+				how = "the source's Close was still in progress (begun 1, returned 0)"
+			}
+			tr.add("c09-source-close-count", fmt.Sprintf("at the moment Close returned (t=%d), %s", closeRetAt, how))
+			if atCloseRet.returned == 0 {
+				tr.add("c11-close-source-not-closed", fmt.Sprintf("Close returned (t=%d) without having closed the source: %s", closeRetAt, how))
+			}
+		}
 		monitorStep(scn, tr, src, fulls, pending && pendLive, pending && !pendLive, closeCalled, closeRet, a)
-		_ = closeRetAt
 		src.mu.Unlock()
 		mu.Unlock()
 	}
@@ -683,7 +739,9 @@ func monitorStep(scn Scn, tr *Trace, src *source, fulls []*fullCall, waitingLive
 	}
 	// a live consumer is waiting at quiescence: nothing may be held back from it
 	if waitingLive && !fpend && !closeCalled {
-		if src.term != "" {
+		// (a source Close that is still running — it takes time, the script has not let it return — is
+		// the environment's turn: a report the stream makes only after it is not overdue yet)
+		if src.term != "" && src.inClose == 0 {
 			tr.add("c11-end-not-reported", fmt.Sprintf("the source ended (%s) at t=%d, a Next call with a live context is still blocked at t=%d with every goroutine idle", src.term, src.termAt, now))
 			if src.term == "err" {
 				tr.add("c08-error-not-reported", "the source failed and a Next call with a live context stays blocked")
@@ -720,17 +778,17 @@ func monitorStep(scn Scn, tr *Trace, src *source, fulls []*fullCall, waitingLive
 		tr.add("c08-next-stuck-after-cancel", "a Next whose context expired does not return")
 	}
 	// Close
-	if closeCalled && !closeRet && !fpend {
+	if closeCalled && !closeRet && !fpend && src.inClose == 0 {
 		tr.add("c11-close-deadlock", fmt.Sprintf("Close was called and has not returned although every goroutine is idle (t=%d, source Next pending=%v, items handed out=%d, delivered=%d)", now, src.nextActive > 0, len(handed), len(concat)))
 	}
 	if closeCalled && len(concat) < len(handed) {
 		tr.Features["close-with-items-in-flight"] = true
 	}
 	if closeRet {
-		if src.closeCalls != 1 {
-			tr.add("c09-source-close-count", fmt.Sprintf("Close returned and the source was closed %d times", src.closeCalls))
+		if src.closeCalls != 1 || src.closeRets != 1 {
+			tr.add("c09-source-close-count", fmt.Sprintf("Close has returned; the source's Close was begun %d times and has returned %d times", src.closeCalls, src.closeRets))
 		}
-		if src.closeCalls == 0 {
+		if src.closeRets == 0 {
 			tr.add("c11-close-source-not-closed", "Close returned without having closed the source")
 		}
 		if src.nextActive > 0 {
@@ -756,7 +814,7 @@ func monitorStep(scn Scn, tr *Trace, src *source, fulls []*fullCall, waitingLive
 // conformance of one trace against the Lean LTS
 
 func conform(m *vlib.Model, scn Scn, tr *Trace) (ok bool, what string, err error) {
-	lines := []string{scn.cfgLine()}
+	lines := []string{scn.modelCfgLine()}
 	for _, o := range tr.Steps {
 		lines = append(lines, o.Line())
 	}
@@ -788,7 +846,76 @@ func (g *gen) item(mark bool) Act {
 	return Act{Op: "rel", V: g.next}
 }
 
+// genScn: one scenario in three has a source whose Close takes time; it returns at a random point
+// after the first action that can make the producer leave (source end / error, Close), or only at the
+// end of the scenario.
 func genScn(r *vlib.Rand, res *vlib.Result) Scn {
+	s := genScnFast(r, res)
+	if !r.Chance(1, 3) {
+		return s
+	}
+	s.SlowClose = true
+	first := -1
+	for i, a := range s.Script {
+		if a.Op == "eof" || a.Op == "err" || a.Op == "close" {
+			first = i
+			break
+		}
+	}
+	if first >= 0 && r.Chance(3, 4) {
+		at := first + 1 + r.Intn(len(s.Script)-first)
+		script := append([]Act{}, s.Script[:at]...)
+		script = append(script, Act{Op: "srcclosed"})
+		s.Script = append(script, s.Script[at:]...)
+	}
+	if first < 0 || r.Chance(1, 3) {
+		s.Script = append(s.Script, Act{Op: "close"}) // Close while the source's Close is outstanding
+		if r.Bool() {
+			s.Script = append(s.Script, Act{Op: "sleep", V: 1})
+		}
+	}
+	return s
+}
+
+// directedSlowClose: a source whose Close takes time x {source ends, fails with its own / a
+// context-flavoured error, neither} x {a Next waiting, asked afterwards} x {Close of the stream before
+// / after the source's Close returned}. Run in every tier.
+func directedSlowClose() []Scn {
+	var out []Scn
+	live := Act{Op: "next", V: 1}
+	rel := func(v int) Act { return Act{Op: "rel", V: v} }
+	for _, base := range []Scn{{Mode: "batch", MaxWait: 2, Size: 2}, {Mode: "batch", MaxWait: 0, Size: 1}, {Mode: "func", MaxWait: 3}} {
+		for _, term := range []Act{{Op: "eof"}, {Op: "err"}, {Op: "err", V: 1}, {Op: "err", V: 2}} {
+			for _, script := range [][]Act{
+				{live, rel(1), term, live, {Op: "srcclosed"}, live, {Op: "close"}},
+				{rel(1), term, live, live, {Op: "close"}, {Op: "sleep", V: 1}, {Op: "srcclosed"}},
+				{term, {Op: "close"}, {Op: "srcclosed"}},
+				{term, live, {Op: "srcclosed"}, {Op: "close"}},
+				{live, term, {Op: "close"}, {Op: "sleep", V: 5}, {Op: "srcclosed"}},
+			} {
+				sc := base
+				sc.SlowClose = true
+				sc.Script = append([]Act{}, script...)
+				out = append(out, sc)
+			}
+		}
+		for _, script := range [][]Act{
+			{{Op: "close"}, {Op: "srcclosed"}},
+			{rel(1), {Op: "close"}, {Op: "sleep", V: 1}, {Op: "srcclosed"}},
+			{live, rel(1), rel(2), rel(3), {Op: "close"}, {Op: "srcclosed"}},
+			{live, {Op: "cancel"}, {Op: "close"}, {Op: "srcclosed"}},
+			{{Op: "srcclosed"}, rel(1), live, {Op: "close"}},
+		} {
+			sc := base
+			sc.SlowClose = true
+			sc.Script = append([]Act{}, script...)
+			out = append(out, sc)
+		}
+	}
+	return out
+}
+
+func genScnFast(r *vlib.Rand, res *vlib.Result) Scn {
 	g := &gen{r: r}
 	s := Scn{Mode: "batch", MaxWait: []int{0, 1, 2, 3, 5, 10}[r.Intn(6)], Size: r.Range(1, 4), CtxFirst: r.Chance(1, 3)}
 	if r.Chance(2, 5) {
@@ -1002,6 +1129,9 @@ func record(t *testing.T, scn Scn, m *vlib.Model, repeats int, res *vlib.Result)
 	if scn.Gated {
 		res.Count("gated-full")
 	}
+	if scn.SlowClose {
+		res.Count("slow-source-close")
+	}
 	res.CountN("actions", len(scn.Script))
 	res.Case(strings.Join(scn.Lines(), ";"), nontrivial, scn.Lines())
 	for _, v := range o.viols {
@@ -1103,6 +1233,10 @@ func TestVerif(t *testing.T) {
 		res.Count("corpus")
 		record(t, scn, m, repeats*4, res)
 	}
+	for _, scn := range directedSlowClose() {
+		res.Count("directed-slow-close")
+		record(t, scn, m, repeats, res)
+	}
 	r := vlib.NewRand(env.Seed)
 	deadline := env.Deadline()
 	if raceEnabled {
@@ -1140,6 +1274,9 @@ func exhaustive(t *testing.T, m *vlib.Model, res *vlib.Result, deadline time.Tim
 		// a source that fails with context-flavoured errors of its own
 		{Scn{Mode: "batch", MaxWait: 2, Size: 2},
 			[]Act{{Op: "rel"}, {Op: "next", V: 1}, {Op: "next", V: 0}, {Op: "cancel"}, {Op: "sleep", V: 3}, {Op: "err", V: 1}, {Op: "err", V: 2}, {Op: "err", V: 3}, {Op: "close"}}, 4},
+		// a source whose Close takes time (a script may go on after `close`: the source's Close returns later)
+		{Scn{Mode: "batch", MaxWait: 2, Size: 2, SlowClose: true},
+			[]Act{{Op: "rel"}, {Op: "next", V: 1}, {Op: "sleep", V: 3}, {Op: "eof"}, {Op: "err"}, {Op: "close"}, {Op: "srcclosed"}}, 4},
 	}
 	complete := true
 	n := 0
@@ -1159,7 +1296,7 @@ func exhaustive(t *testing.T, m *vlib.Model, res *vlib.Result, deadline time.Tim
 				record(t, scn, m, 3, res)
 				n++
 			}
-			if len(prefix) == sp.depth || (len(prefix) > 0 && prefix[len(prefix)-1].Op == "close") {
+			if len(prefix) == sp.depth || (len(prefix) > 0 && prefix[len(prefix)-1].Op == "close" && !sp.scn.SlowClose) {
 				return
 			}
 			for _, a := range sp.alpha {
